@@ -162,6 +162,10 @@ func runProperty(id, tier, vdir string, known *core.KnownFindings, seed int,
 				continue
 			}
 			if ci == 0 {
+				for _, u := range rules.GetAnchors(c).Missing {
+					res.Assumptions = append(res.Assumptions, "field "+u+" of the anchor table no longer exists (moved, regrouped or renamed); its table entry classifies nothing")
+					fmt.Printf("NOTE property=%s anchored field %s no longer exists; its classification entry is unused\n", id, u)
+				}
 				for _, u := range rules.GetAnchors(c).Unclassified {
 					res.Assumptions = append(res.Assumptions, "field "+u+" is not in the anchor table (added after it was frozen); path rules treat stores to it as exempt")
 					fmt.Printf("NOTE property=%s unclassified field %s treated as exempt by the path rules\n", id, u)
